@@ -9,7 +9,8 @@
 
    The division (inputs - keypoints) / lengths is modelled IEEE-style for finite
    operands: a zero length gives +-inf (clipped to 1 / 0) or, for a zero
-   numerator, NaN, which the code replaces by 1 before the clip. *)
+   numerator, NaN, which the code replaces by 0 before the clip: a zero-length
+   piece is the left-continuous step "1 if x > kp else 0". *)
 From TFL Require Export Base.QNum Base.Lists.
 Open Scope Q_scope.
 
@@ -36,9 +37,9 @@ Definition opt_some {A} (o : option A) : bool := match o with Some _ => true | N
 Fixpoint cumsum_excl (acc : Q) (l : list Q) : list Q :=
   match l with [] => [] | x :: r => acc :: cumsum_excl (acc + x) r end.
 
-(* clip(nan_to_one((x - kp) / len), 0, 1) *)
+(* clip(nan_to_zero((x - kp) / len), 0, 1) *)
 Definition wclip (x kp len : Q) : Q :=
-  if Qeq_bool len 0 then (if qle kp x then 1 else 0)
+  if Qeq_bool len 0 then (if qlt kp x then 1 else 0)
   else qclip 0 1 ((x - kp) / len).
 
 (* _compute_interpolation_weights: front-pad 1.0 *)
@@ -152,10 +153,20 @@ Definition pwl_fn (sm : list Q -> list Q) (sg : Q -> Q) (c : pcfg)
           (seq 0 units)) (seq 0 B))
   else None.
 
-(* derived parameters returned with return_derived_parameters=True, per slice *)
-Definition derived_deltas sm (c : pcfg) (kip : option (list Q)) : list Q := key_deltas sm c kip.
+(* derived parameters returned with return_derived_parameters=True: keypoint
+   deltas with the batch axis of keypoint_input_parameters (1 for the None
+   form) and the [y0, delta_1, ...] lists with the batch axis of
+   keypoint_output_parameters *)
 Definition derived_outputs sm sg (c : pcfg) (kop : list Q) : list Q :=
   kernel_outputs sm sg c (snd (split_missing sg c kop)).
+Definition pwl_derived (sm : list Q -> list Q) (sg : Q -> Q) (c : pcfg)
+    (kip : option ptens) (kop : ptens) : list (list (list Q)) * list (list (list Q)) :=
+  let units := p_units c in
+  (match kip with
+   | None => [repeat (key_deltas sm c None) units]
+   | Some t => map (fun row => map (fun p => key_deltas sm c (Some p)) row) (tile1 units (to3 t))
+   end,
+   map (fun row => map (fun p => derived_outputs sm sg c p) row) (tile1 units (to3 kop))).
 
 (* default_keypoint_output_parameters / default_keypoint_input_parameters:
    last-dimension size of the all-zero tensor they return *)
